@@ -13,6 +13,7 @@ type genState struct {
 	maxG     int
 	paths    []pnode
 	resume   bool // resume case: chains, interrupt points, rerun nodes
+	iface    bool // the forest has lambdas declared with an interface option type
 }
 
 // genKind chooses what a node is (a nested graph is generated on the spot).
@@ -32,7 +33,12 @@ func (s *genState) genKind(nd *Node, gi, depth int, wantSub bool) {
 		nd.Kind, nd.Ty = "comp", tyNone
 	default:
 		nd.Kind, nd.Ty = "comp", s.pool[r.Intn(len(s.pool))]
-		if (nd.Ty == tyLambdaA || nd.Ty == tyLambdaB) && r.Chance(2, 3) {
+		if s.iface && r.Chance(1, 4) {
+			// a lambda declared with an interface option type: a node of another type for every
+			// option value of the case
+			nd.Ty = tyIfaceAny + r.Intn(2)
+		}
+		if isLambdaTy(nd.Ty) && r.Chance(2, 3) {
 			nd.Nat = r.Range(1, 5) // the lambda is native in another paradigm than Invoke
 		}
 	}
@@ -145,7 +151,7 @@ func (s *genState) genChains(g *Graph, gi, depth, n int, interrupts bool) {
 // canRerun: a node that is run again from a checkpoint is handed the zero value of its input
 // type, which only the lambdas of this harness (they take the whole input map) accept.
 func canRerun(nd Node) bool {
-	return nd.Kind == "relay" || nd.Kind == "comp" && (nd.Ty == tyNone || nd.Ty == tyLambdaA || nd.Ty == tyLambdaB)
+	return nd.Kind == "relay" || nd.Kind == "comp" && (nd.Ty == tyNone || isLambdaTy(nd.Ty))
 }
 
 // interruptPoints counts the interrupt points over the tree unfolding and those inside
@@ -207,17 +213,23 @@ func (s *genState) allPaths() []pnode {
 func (s *genState) randPath(want int) []int {
 	r := s.r
 	all := s.allPaths()
-	var comps, subs []pnode
+	var comps, subs, ifaces []pnode
 	for _, pn := range all {
 		switch {
 		case pn.nd.Kind == "sub":
 			subs = append(subs, pn)
 		case want >= 0 && pn.nd.Kind == "comp" && pn.nd.Ty == want:
 			comps = append(comps, pn)
+		case pn.nd.Kind == "comp" && isIfaceTy(pn.nd.Ty):
+			ifaces = append(ifaces, pn)
 		}
 	}
 	var pick pnode
 	switch x := r.Intn(20); {
+	case len(ifaces) > 0 && r.Chance(1, 12):
+		// to a lambda declared with an interface option type: the wrong type whatever the option
+		// carries (fine for an option that carries handlers only)
+		pick = ifaces[r.Intn(len(ifaces))]
 	case want >= 0 && len(comps) > 0 && x < 13:
 		pick = comps[r.Intn(len(comps))]
 	case want >= 0 && len(subs) > 0 && x < 19:
@@ -301,7 +313,7 @@ func (s *genState) genItems(base int, next *int) [][2]int {
 	ty := s.pool[r.Intn(len(s.pool))]
 	switch r.Intn(12) {
 	case 0:
-		ty = r.Range(1, numTy-1)
+		ty = valueTypes[r.Intn(len(valueTypes))]
 	case 1:
 		return [][2]int{} // WithLambdaOption()
 	case 2:
@@ -492,10 +504,16 @@ func (engine) Generate(r *lib.Rng, tier string, i int) any {
 	}
 	s.resume = r.Chance(2, 5)
 	np := r.Range(2, 4)
-	perm := r.Perm(numTy - 1)
+	perm := r.Perm(len(valueTypes))
 	for k := 0; k < np; k++ {
-		s.pool = append(s.pool, perm[k]+1)
+		s.pool = append(s.pool, valueTypes[perm[k]])
 	}
+	if r.Chance(1, 6) {
+		// the three option types around optA together: the struct, the pointer to it, the named
+		// type with the same underlying type
+		s.pool = []int{tyLambdaA, tyPtrA, tyNamedA}
+	}
+	s.iface = r.Chance(1, 3)
 	s.genGraph(0)
 	s.c.Sched = r.U64() >> 1
 	if s.resume {
